@@ -57,6 +57,29 @@ class Gen:
                         c = tuple(min(255, max(0, v + rnd.randint(-6, 6))) for v in g)
                         if 3.3 <= refs.wcag_ratio(c, bg) <= 4.4:
                             return c
+            elif cls == "hairline":
+                # within 0.005 below (or just above) 4.5 or 7.0 against this very background
+                t = rnd.choice((4.5, 7.0))
+                up = refs.wcag_lum(bg) < 0.18
+                centre = None
+                for k in range(256):
+                    g = k if up else 255 - k
+                    if refs.wcag_ratio((g, g, g), bg) >= t:
+                        centre = g
+                        break
+                if centre is None:
+                    cls = "fix"
+                    continue
+                cand = []
+                for dr in range(-5, 6):
+                    for dg in range(-3, 4):
+                        for db in range(-6, 7):
+                            c = (centre + dr, centre + dg, centre + db)
+                            if min(c) >= 0 and max(c) <= 255 and t - 0.005 <= refs.wcag_ratio(c, bg) < t + 0.002:
+                                cand.append(c)
+                if cand:
+                    return rnd.choice(cand)
+                cls = "fix"
             else:
                 c = tuple(min(255, max(0, v + rnd.randint(-8, 8))) for v in bg)
                 if refs.wcag_ratio(c, bg) < 1.3:
@@ -79,6 +102,7 @@ class Gen:
             else:
                 defs.append((nme, None))   # filled when a rule takes it
         self.free_text_vars = [n for n in vnames if n.startswith("--c")]
+        self.var_user_bg = {}
         self.bgvars = bgvals
         self.var_defs = dict(defs)
         body = self.block(self.nrules, 0)
@@ -91,9 +115,19 @@ class Gen:
                     del self.var_defs[nme]
         # chain: occasionally define one var through another
         names = [n for n in self.var_defs if n.startswith("--c")]
-        if len(names) >= 2 and rnd.random() < 0.3:
-            a, b = rnd.sample(names, 2)
-            self.var_defs[f"--alias"] = ("var", a)
+        if len(names) >= 1 and rnd.random() < 0.35:
+            a = rnd.choice(names)
+            self.var_defs["--alias"] = ("var", a)
+            # a rule that uses the alias, after the rules built so far (chains: the alias resolves through `a`)
+            if rnd.random() < 0.7:
+                self.n += 1
+                bgc = rnd.choice([(34, 34, 34), (255, 255, 255), (20, 20, 60), (240, 240, 230)])
+                if a in self.var_user_bg and rnd.random() < 0.7:
+                    # opposite polarity to the rule that uses the aliased property directly: what is good for one
+                    # background is worse for the other
+                    bgc = rnd.choice([(20, 20, 20), (34, 34, 34)]) if refs.wcag_lum(self.var_user_bg[a]) > 0.3 else rnd.choice([(255, 255, 255), (245, 245, 240)])
+                body.append({"t": "rule", "sel": ".al%d" % self.n, "text": ("var", "--alias"), "bg": ("lit", pairs.hexs(bgc)),
+                             "extras": [], "imp": False, "dup": False, "comment": False})
         rootsel = rnd.choice([":root", "html"])
         root = {"t": "vars", "sel": rootsel, "defs": list(self.var_defs.items()), "color": None}
         if rnd.random() < self.f_known * 0.5:      # F4 class: literal color directly in the :root/html rule
@@ -140,7 +174,7 @@ class Gen:
             nme = rnd.choice(sorted(self.bgvars))
             bgexpr = ("var", nme)
         # text colour
-        cls = rnd.choice(["ok", "fix", "fix", "hard", "none", "invalid"])
+        cls = rnd.choice(["ok", "fix", "fix", "hard", "none", "invalid", "hairline"])
         base_bg = (255, 255, 255)
         textexpr = None
         if cls == "none":
@@ -156,11 +190,14 @@ class Gen:
                 bgc = rb if rb else base_bg
             c = self.colour_for(cls, bgc)
             form = rnd.random()
-            if form < 0.6:
+            if cls == "hairline":
+                textexpr = lit(c, rnd, ["hex6", "rgbfn", "hexupper"])
+            elif form < 0.6:
                 textexpr = lit(c, rnd, self.kinds)
             elif form < 0.85 and self.free_text_vars:
                 nme = self.free_text_vars.pop()
                 self.var_defs[nme] = lit(c, rnd, ["hex6", "rgbfn", "hslfn", "named"])
+                self.var_user_bg[nme] = bgc
                 textexpr = ("var", nme)
             elif rnd.random() < self.f_known:
                 # F5 class: fallback form
@@ -189,7 +226,9 @@ class Gen:
                  "@keyframes spin { from { transform: rotate(0deg) } to { transform: rotate(360deg) } }",
                  "@page :first { margin: 1in }", "@unknown-rule foo bar;", "@namespace svg url(http://www.w3.org/2000/svg);",
                  ".empty{}", ".nocolor { margin: 0; padding: 1px 2px }", "/* café ☃ */",
-                 ".esc\\31 23 { width: 1px\\9 }", "<!-- .cdo { top: 0 } -->"]
+                 ".esc\\31 23 { width: 1px\\9 }", "<!-- .cdo { top: 0 } -->",
+                 "/* separators \u2028 inside \x0b a \x85 comment \x1c */", ".sep::after { content: \"a\u2028b\x0bc\u2029d\x85e\x1d\" }",
+                 ".uni\u2028x { margin: 0 }"]
         out = []
         first = True
         for n in nodes:
